@@ -61,6 +61,52 @@ fn bf_comp_strategy(idx: usize) -> BoxedStrategy<Comp> {
         .boxed()
 }
 
+/// Systematic family the random generator reaches only rarely: a plain member, then a
+/// bit-field run that is opened by an unnamed field (a `:0` separator or `:k` padding) or
+/// directly by a named one, under every packing mode. Six structs per case.
+fn motif_grid() -> Vec<Case> {
+    let plains = [Prim::Char, Prim::Short, Prim::Int];
+    let seps: [(Prim, Option<u8>); 9] = [
+        (Prim::Char, Some(0)),
+        (Prim::Short, Some(0)),
+        (Prim::UInt, Some(0)),
+        (Prim::ULong, Some(0)),
+        (Prim::UInt, Some(3)),
+        (Prim::UInt, Some(4)),
+        (Prim::UChar, Some(7)),
+        (Prim::ULongLong, Some(11)),
+        (Prim::UInt, None),
+    ];
+    let runs: [&[(Prim, u8)]; 4] = [&[(Prim::UInt, 3), (Prim::UInt, 7)], &[(Prim::UChar, 4), (Prim::UShort, 9)], &[(Prim::ULongLong, 33), (Prim::Int, 5)], &[(Prim::Bool, 1), (Prim::Short, 13)]];
+    let packings: [(bool, Option<u8>); 4] = [(false, None), (true, None), (false, Some(1)), (false, Some(2))];
+    let mut comps = vec![];
+    for (pi, plain) in plains.iter().enumerate() {
+        for (si, (sp, sbits)) in seps.iter().enumerate() {
+            for (ri, run) in runs.iter().enumerate() {
+                for (ki, (packed, pragma)) in packings.iter().enumerate() {
+                    let mut fields = vec![Field { name: "c".into(), ty: FieldTy::Ty(Ty::Prim(*plain)), bits: None, align: None }];
+                    if let Some(b) = sbits {
+                        fields.push(Field { name: String::new(), ty: FieldTy::Ty(Ty::Prim(*sp)), bits: Some(*b), align: None });
+                    }
+                    for (k, (p, w)) in run.iter().enumerate() {
+                        fields.push(Field { name: format!("f{k}"), ty: FieldTy::Ty(Ty::Prim(*p)), bits: Some(*w), align: None });
+                    }
+                    fields.push(Field { name: "t".into(), ty: FieldTy::Ty(Ty::Prim(Prim::Char)), bits: None, align: None });
+                    comps.push(Comp { is_union: false, tag: Some(format!("M{pi}_{si}_{ri}_{ki}")), fields, packed: *packed, aligned: None, pragma_pack: *pragma, typedef_name: None });
+                }
+            }
+        }
+    }
+    comps
+        .chunks(6)
+        .map(|ch| {
+            let mut prog = Program { decls: ch.iter().cloned().map(Decl::Comp).collect() };
+            prog.normalise();
+            Case::Structs { prog, flags: vec![], keep_known: false }
+        })
+        .collect()
+}
+
 fn prog_strategy() -> BoxedStrategy<Program> {
     (1usize..4)
         .prop_flat_map(|n| (0..n).map(bf_comp_strategy).collect::<Vec<_>>())
@@ -405,7 +451,9 @@ impl Property for C03 {
         tier.pick(160, 5000)
     }
     fn fixed_cases(&self, _tier: Tier) -> Vec<Case> {
-        vec![Case::Sweep]
+        let mut v = vec![Case::Sweep];
+        v.extend(motif_grid());
+        v
     }
     fn evaluate(&self, case: &Case, env: &Env) -> Outcome {
         let mut out = Outcome::new();
